@@ -94,7 +94,9 @@ var (
 	tokBracketHex = []string{"[abc1234]", "[deadbeef]", "[0123456789ab]", "[fffff]"}
 	tokHex        = []string{"abc1234", "deadbeef", "1234567"}
 	tokArrow      = []string{"a -> b", "x => y", "->", "=>"}
-	tokDate       = []string{"2019-12-31", "1999-01-01"}
+	// (eighth seed batch: times of day with a zone offset and ISO timestamps, as a log taken with --date=iso shows
+	// them behind the day; none of them holds a colon followed by a blank)
+	tokDate       = []string{"2019-12-31", "1999-01-01", "23:59:58 +0100", "00:00:00 +0000", "12:30:00 -0800", "2019-12-31T23:59:59+01:00", "10:15:30"}
 	tokColon      = []string{"note:", "re: x", "::", "a:b"}
 	tokMisc       = []string{"#123", "(#45)", "100%", "src/main.go", `"quoted"`, "it's", "{a => b}", "naïve", "修复", "1 2", "two  blanks"}
 
